@@ -424,6 +424,31 @@ func (c *Check) loopVisitsAll(fn *ssa.Function, lp *Loop) {
 		for _, p := range lp.Header.Preds {
 			cut[Edge{p.Index, lp.Header.Index}] = true
 		}
+		// tolerated shortcut: a path on which the ranged operand is known to be empty
+		// (`if len(X) == 0 { return ... }` in front of `for range X`)
+		if ranged := rangedOperand(lp); ranged != nil {
+			for _, b := range fn.Blocks {
+				iff, ok := b.Instrs[len(b.Instrs)-1].(*ssa.If)
+				if !ok {
+					continue
+				}
+				bo, ok := iff.Cond.(*ssa.BinOp)
+				if !ok {
+					continue
+				}
+				ln, ok := bo.X.(*ssa.Call)
+				k, isC := constIntOf(bo.Y)
+				if !ok || !isC || k != 0 || calleeName(&ln.Call) != "builtin:len" || !sameAccess(ln.Call.Args[0], ranged) {
+					continue
+				}
+				switch bo.Op {
+				case token.EQL, token.LEQ:
+					cut[Edge{b.Index, b.Succs[0].Index}] = true
+				case token.NEQ, token.GTR:
+					cut[Edge{b.Index, b.Succs[1].Index}] = true
+				}
+			}
+		}
 		seen := reachable(fn, fn.Blocks[0], cut)
 		skip := ""
 		for _, r := range acceptReturns(fn) {
@@ -437,4 +462,24 @@ func (c *Check) loopVisitsAll(fn *ssa.Function, lp *Loop) {
 		return
 	}
 	c.NoEarlyExit(fn, lp, nil, "anchored for-every-element loop")
+}
+
+// rangedOperand: X of `for ... range X` for slice range loops (header condition idx < len(X)).
+func rangedOperand(lp *Loop) ssa.Value {
+	if lp == nil || lp.Header == nil || len(lp.Header.Instrs) == 0 {
+		return nil
+	}
+	iff, ok := lp.Header.Instrs[len(lp.Header.Instrs)-1].(*ssa.If)
+	if !ok {
+		return nil
+	}
+	bo, ok := iff.Cond.(*ssa.BinOp)
+	if !ok {
+		return nil
+	}
+	ln, ok := bo.Y.(*ssa.Call)
+	if !ok || calleeName(&ln.Call) != "builtin:len" {
+		return nil
+	}
+	return ln.Call.Args[0]
 }
